@@ -114,15 +114,36 @@ func callSitesOf(w *World, fn *ssa.Function) []ssa.Instruction {
 // siteKey names a call site stably: enclosing function + callee + ordinal within that function.
 func siteKey(w *World, ins ssa.Instruction) string {
 	fn := ins.Parent()
-	callee := ""
-	if cc := callCommon(ins); cc != nil {
-		callee = callDesc(cc)
-	} else {
+	desc := func(x ssa.Instruction) string {
+		if cc := callCommon(x); cc != nil {
+			return callDesc(cc)
+		}
+		switch y := x.(type) {
+		case *ssa.Store:
+			return "store:" + stablePath(y.Addr)
+		case *ssa.UnOp:
+			if y.Op == token.MUL {
+				return "load:" + stablePath(y.X)
+			}
+			if y.Op == token.ARROW {
+				return "recv:" + stablePath(y.X)
+			}
+		case *ssa.Select:
+			return "select"
+		case *ssa.Return:
+			return "return"
+		case *ssa.TypeAssert:
+			return "assert:" + stablePath(y.X)
+		}
+		return ""
+	}
+	callee := desc(ins)
+	if callee == "" {
 		callee = insText(ins)
 	}
 	n, idx := 0, 0
 	forEachIns(fn, func(x ssa.Instruction) {
-		if cc := callCommon(x); cc != nil && callDesc(cc) == callee {
+		if desc(x) == callee {
 			n++
 			if x == ins {
 				idx = n
@@ -235,4 +256,30 @@ func loadOfField(v ssa.Value, typ, field string) (ssa.Value, bool) {
 		return base, true
 	}
 	return nil, false
+}
+
+// stablePath is pathOf with SSA register names (t12) replaced by a placeholder, so that keys do
+// not depend on register numbering.
+func stablePath(v ssa.Value) string {
+	p := pathOf(v)
+	out := make([]byte, 0, len(p))
+	for i := 0; i < len(p); i++ {
+		if p[i] == 't' && i+1 < len(p) && p[i+1] >= '0' && p[i+1] <= '9' && (i == 0 || !isIdentByte(p[i-1])) {
+			j := i + 1
+			for j < len(p) && p[j] >= '0' && p[j] <= '9' {
+				j++
+			}
+			if j == len(p) || !isIdentByte(p[j]) {
+				out = append(out, '_')
+				i = j - 1
+				continue
+			}
+		}
+		out = append(out, p[i])
+	}
+	return string(out)
+}
+
+func isIdentByte(c byte) bool {
+	return c == '_' || (c >= 'a' && c <= 'z') || (c >= 'A' && c <= 'Z') || (c >= '0' && c <= '9')
 }
